@@ -1025,7 +1025,7 @@ class BasisDummy(BasisSet):
         return mat * op_factor
 
     def copy(self, new_dof):
-        return self.__class__(new_dof, self.sigmaqn)
+        return self.__class__(new_dof, self.nbas, self.sigmaqn)
 
 def x_power_k(k, m, n):
 # <m|x^k|n>, origin is 0
